@@ -121,6 +121,13 @@ class Recorder:
         self._orig_hmac_new = hmac.new
         self._orig_hashlib_new = hashlib.new
         os.urandom = self._urandom
+        # the other standard sources of random bytes are the same draw as far as the model is concerned
+        import secrets
+        self._orig_token_bytes = secrets.token_bytes
+        secrets.token_bytes = lambda n=32: self._urandom(n)
+        self._orig_randbytes = getattr(random, "randbytes", None)
+        if self._orig_randbytes is not None:
+            random.randbytes = self._urandom
         random.randint, random.sample, random.choice, random.shuffle = self._randint, self._sample, self._choice, self._shuffle
         hmac.new = self._hmac_new
         hashlib.new = self._hashlib_new
@@ -129,6 +136,10 @@ class Recorder:
 
     def __exit__(self, *a):
         os.urandom = self._orig_urandom
+        import secrets
+        secrets.token_bytes = self._orig_token_bytes
+        if self._orig_randbytes is not None:
+            random.randbytes = self._orig_randbytes
         random.randint, random.sample, random.choice, random.shuffle = self._orig_random
         hmac.new = self._orig_hmac_new
         hashlib.new = self._orig_hashlib_new
